@@ -35,7 +35,7 @@ def RT(nth):
 def plans(ctx):
     if ctx.tier == "quick":
         # re-announcement of live ids, D/T after a verdict, replies (stale tags) after a verdict, junk
-        return [R.Plan("qr", "S_q1", emit_mod=70, max_inst=2, max_pw=1, stray=1, also=RT(25)),
+        return [R.Plan("qr", "S_q1", emit_mod=115, max_inst=2, max_pw=1, stray=1, also=RT(20)),
                 # iauth_class with a trust_username rule and ident answers that start with '~': the pre-registration hook
                 # prints a U line and may re-enter the acceptance gate
                 R.Plan("trust", "S_t1d", emit_mod=6, max_inst=1, max_pw=1, rich_sel="RichTilde", opts=TRUST)]
